@@ -76,13 +76,16 @@ CResv      == Ev("WriteReserved") /\ ResvEnabled(T.wp, T.cls) /\ T.mode = ResvMo
               /\ LoggedResv /\ UNCHANGED <<tree, cur, written, by, hist>>
 (* exactly the cells of the model were exercised (minus the ones the harness reported unobservable), and everything
    the model says is available answered 200 *)
+(* a superseded revision is still served from the revision cache while that is warm, unless the superseding write was
+   external (the gateway never saw the moment the old body was overwritten) *)
+MayBeGone(i, c) == Kind(i) = "old" /\ (c = "cold" \/ \E j \in Revs : tree[j] = i /\ by[j] = "ExtImport")
 CReads ==
   /\ Ev("Reads")
   /\ N > 0
   /\ LET got == {<<T.items[n].rev, T.items[n].rp, T.items[n].cache>> : n \in 1..Len(T.items)}
          skipped == {<<T.skipped[n].rev, T.skipped[n].rp, T.skipped[n].cache>> : n \in 1..Len(T.skipped)}
      IN  (got \cup skipped = CellsNow) /\ (got \cap skipped = {})
-  /\ \A n \in 1..Len(T.items) : (T.items[n].status = 200) \/ (Kind(T.items[n].rev) = "old" /\ T.items[n].cache = "cold")
+  /\ \A n \in 1..Len(T.items) : (T.items[n].status = 200) \/ MayBeGone(T.items[n].rev, T.items[n].cache)
   /\ LoggedReads
   /\ UNCHANGED <<tree, cur, written, by, hist>>
 CCore == Reset \/ CCreate \/ CSupersede \/ CBranch \/ CResv \/ CReads
